@@ -35,6 +35,8 @@ def build(cfg, like=None):
     if like is None:
         like = idblob.Likelihood(t, mode=c["mode"], shift=c["shift"], pointwise=c.get("pointwise", False),
                                  shared_counter=idblob.SHARED)
+    if c.get("ret_type"):
+        like.ret_type = c["ret_type"]
     if c.get("ro_buffer"):
         like.ro_buffer = True        # vectorised likelihood returns a read-only view of a buffer it reuses on the next call
     pt = idblob.Transform(t, dtype=c.get("xdtype"), alias=c.get("xalias", False))
